@@ -103,19 +103,8 @@ theorem insert_preserves {t : Tree} (inv : TreeInv t) {n : Node}
     TreeInv (insert t n).1 ∧
     (∀ σ i, i < t.size → denote (insert t n).1 σ i = denote t σ i) ∧
     (∀ σ, denote (insert t n).1 σ (insert t n).2.1 = evalNode σ (denote t σ) n) ∧
-    (insert t n).2.1 < (insert t n).1.size := by
-  have hso := insert_sorted inv.struct inv.sorted hn
-  have hg := fun σ => insert_good (inv.good σ) hn hsmall
-  have hinv : TreeInv (insert t n).1 :=
-    treeInv_of_good hso (fun σ => by rcases hg σ with ⟨v', _, g, _⟩; exact ⟨v', g⟩)
-  refine ⟨hinv, ?_, ?_, ?_⟩
-  · intro σ i hi
-    rcases hg σ with ⟨v', hv', g, _, _, hle, _⟩
-    rw [← models_unique hso g.models i (by omega), hv' i hi]
-  · intro σ
-    rcases hg σ with ⟨v', _, g, hid, hlt, _⟩
-    rw [← models_unique hso g.models _ hlt, hid]
-  · rcases hg (fun _ => true) with ⟨_, _, _, _, hlt, _⟩; exact hlt
+    (insert t n).2.1 < (insert t n).1.size :=
+  insert_inv inv hn hsmall
 
 /-- ★ (c2), order-free form: `CsgTree::exchange` with a node of equal value (`evalNode σ v n =
     v nodeId`; in `replace_and_simplify` this is "equal under the replaced constant") keeps every
